@@ -149,7 +149,28 @@ func vf01ApplyMutators(t *rapid.T, uc *UConn, m *vf01Model) {
 			}
 		case 1:
 			name := vfGenDNSName(t, l+"_sni")
-			switch rapid.IntRange(0, 7).Draw(t, l+"_sni_kind") {
+			switch rapid.IntRange(0, 8).Draw(t, l+"_sni_kind") {
+			case 8: // the name is edited on the SNIExtension object itself (an edit to Extensions), to nothing or to another name
+				var se *SNIExtension
+				for _, e := range uc.Extensions {
+					if x, ok := e.(*SNIExtension); ok {
+						se = x
+					}
+				}
+				if se == nil {
+					continue
+				}
+				if rapid.Bool().Draw(t, l+"_sni_direct_clear") {
+					se.ServerName = ""
+					none := ""
+					m.sni, m.sniNone = &none, true
+					m.kinds = append(m.kinds, "sni-extension-name-cleared")
+				} else {
+					se.ServerName = name
+					m.sni, m.sniNone = &name, false
+					m.kinds = append(m.kinds, "sni-extension-name-edited")
+				}
+				continue
 			case 0: // names that are not sent as SNI (RFC 6066: no IP literals): the extension disappears
 				name = rapid.SampledFrom([]string{"192.0.2.7", "2001:db8::7", ""}).Draw(t, l+"_sni_literal")
 				uc.SetSNI(name)
